@@ -132,6 +132,10 @@ class _TbTable:
     def __len__(self):
         return self.fm.nrows
 
+    @property
+    def nrows(self):
+        return self.fm.nrows
+
     def read(self, start=None, stop=None, step=None, field=None):
         self.w.call("tables.read")
         self.w.event("tb.read", self.fm.path, start, stop, step, field)
@@ -548,6 +552,18 @@ def numpy_random_module(world):
 
     def _global():
         return SymRng(world, ("numpy-global-state",))
+
+    # the bit generator behind numpy's legacy global functions: swapping it is a change of global state unless undone
+    world.global_bitgen = "numpy-default-global-bitgen"
+
+    def get_bit_generator():
+        return world.global_bitgen
+
+    def set_bit_generator(g):
+        world.event("set_bit_generator", getattr(getattr(g, "_seed_seq", None), "key", g))
+        world.global_bitgen = g
+    mod.get_bit_generator = get_bit_generator
+    mod.set_bit_generator = set_bit_generator
 
     def _legacy(name, impl):
         def f(*a, **k):
